@@ -75,7 +75,7 @@ std::vector<size_t> line_starts(const std::string & d)
 std::string damage(std::string d, const Plan & plan, Outcome & out)
 {
   for (const Op & op : plan.ops) {
-    if (op.k == "src" || op.k == "use" || op.k == "rfault") continue;
+    if (op.k == "src" || op.k == "use" || op.k == "rfault" || op.k == "again") continue;
     if (d.empty()) continue; // nothing left to damage
     size_t n = d.size();
     if (op.k == "trunc") { d.resize((size_t)(op.arg(0) % (i64)(n + 1))); out.ctr["fault_torn_tail"]++; }
@@ -109,7 +109,7 @@ void set_read_faults(const Plan & plan, Outcome & out)
 std::string fault_kinds(const Plan & plan)
 {
   std::string s;
-  for (const Op & op : plan.ops) if (op.k != "src" && op.k != "use") s += (s.empty() ? "" : "+") + op.k;
+  for (const Op & op : plan.ops) if (op.k != "src" && op.k != "use" && op.k != "again") s += (s.empty() ? "" : "+") + op.k;
   return s.empty() ? "none" : s;
 }
 
@@ -244,7 +244,73 @@ Outcome run_files_ga(const Plan & plan, const RunCtx & ctx)
     out.ctr["diag_shot_budget_exhausted_after_accepted_table"] += budget;
     if (bad != valid) out.ctr["probe_damaged_table_accepted"]++;
   }
-  out.cover.push_back(sigctx + "/" + (ok ? "accepted" : "error"));
+  // ---- the same object again: a rejected table must not poison the next load ("again" ops) ----------
+  int again_n = 0;
+  for (const Op & op : plan.ops) {
+    if (op.k != "again" || out.violated() || again_n >= 3) continue;
+    again_n++;
+    if ((through_generator && gen && gen->is_initialized()) || (!through_generator && ga && ga->is_initialized())) {
+      // loaded: release it the regular way before loading again
+      std::string e2; bool a2 = false;
+      sut_call(-1, [&] { if (through_generator) gen->reset(); else ga->reset(); }, e2, a2);
+      if (through_generator) {
+        gen->set_decay_category(bxdecay0::decay0_generator::DECAY_CATEGORY_DBD);
+        gen->set_decay_isotope("Se82"); gen->set_decay_dbd_level(0); gen->set_decay_dbd_mode(bxdecay0::DBDMODE_2NUBB_GA_G0);
+      } else {
+        ga->set_nuclide("Test"); ga->set_process(bxdecay0::dbd_gA::PROCESS_G0);
+        ga->set_shooting(pdf ? bxdecay0::dbd_gA::SHOOTING_REJECTION : bxdecay0::dbd_gA::SHOOTING_INVERSE_TRANSFORM_METHOD);
+      }
+    }
+    i64 mode = op.arg(0);
+    std::string next = mode == 2 ? bad : ga_file(SETS[(size_t)((set + (mode == 1 ? 1 : 0)) % 3)], pdf ? "tab_pdf.data" : "tab_ocdf.data");
+    if (mode == 3 && !next.empty()) next = next.substr(0, (size_t)(op.arg(1) % (i64)next.size()));
+    bool next_is_valid = mode == 0 || mode == 1;
+    fs::put(path, next);
+    fs::begin_op();
+    std::string err2; bool af2 = false;
+    bool ok2 = sut_call(-1, [&] { if (through_generator) { SimRandom ri(7); gen->initialize(ri); } else ga->initialize(); }, err2, af2);
+    tr.add((u64)ok2);
+    out.ctr[ok2 ? "reload_accepted" : "reload_raised_error"]++;
+    check_resources(out, check, "dbd_gA::initialize (again)", limits_for(next.size() + 1000), alloc_ctl().bytes, alloc_ctl().max_single, 0, sigctx + " again");
+    if (next_is_valid) {
+      if (!ok2) {
+        if (check) out.fail("C15", "valid-table-rejected-after-failed-load", "valid-table-rejected-after-failed-load " + sigctx,
+                            "a valid table was rejected (" + err2 + ") by an object whose previous load " + (ok ? "succeeded" : "had failed"));
+      } else {
+        // the object must now behave like a pristine one loaded from the same file
+        std::unique_ptr<bxdecay0::dbd_gA> ga2; std::unique_ptr<bxdecay0::decay0_generator> gen2;
+        std::string e3; bool a3 = false;
+        bool ok3 = sut_call(-1, [&] {
+          if (through_generator) {
+            gen2.reset(new bxdecay0::decay0_generator);
+            gen2->set_decay_category(bxdecay0::decay0_generator::DECAY_CATEGORY_DBD);
+            gen2->set_decay_isotope("Se82"); gen2->set_decay_dbd_level(0); gen2->set_decay_dbd_mode(bxdecay0::DBDMODE_2NUBB_GA_G0);
+            SimRandom ri(7); gen2->initialize(ri);
+          } else {
+            ga2.reset(new bxdecay0::dbd_gA);
+            ga2->set_nuclide("Test"); ga2->set_process(bxdecay0::dbd_gA::PROCESS_G0);
+            ga2->set_shooting(pdf ? bxdecay0::dbd_gA::SHOOTING_REJECTION : bxdecay0::dbd_gA::SHOOTING_INVERSE_TRANSFORM_METHOD);
+            ga2->initialize();
+          }
+        }, e3, a3);
+        if (ok3) {
+          SimRandom r1(hstr("again-shots")), r2(hstr("again-shots"));
+          for (int i = 0; i < 40 && !out.violated(); i++) {
+            r1.begin_op(200000); r2.begin_op(200000);
+            bxdecay0::event e1, e2v; bool t1 = false, t2 = false;
+            try { if (through_generator) gen->shoot(r1, e1); else ga->shoot(r1, e1); } catch (std::exception &) { t1 = true; }
+            try { if (through_generator) gen2->shoot(r2, e2v); else ga2->shoot(r2, e2v); } catch (std::exception &) { t2 = true; }
+            out.ctr["shots_compared_after_reload"]++;
+            if (check && (t1 != t2 || (!t1 && !(EventRec::of(e1) == EventRec::of(e2v)))))
+              out.fail("C15", "stale-table-data-after-failed-load", "stale-table-data-after-failed-load " + sigctx,
+                       "after a " + std::string(ok ? "successful" : "rejected") + " load, the same object loaded a valid table but samples differently from a pristine object loaded from the same file (shot #" + std::to_string(i) + ")");
+          }
+        }
+      }
+    }
+    ok = ok2;
+  }
+  out.cover.push_back(sigctx + "/" + (ok ? "accepted" : "error") + (again_n ? "/again" + std::to_string(again_n) : ""));
   ga.reset(); gen.reset();
   out.trace = tr.h;
   return out;
@@ -344,6 +410,9 @@ Plan gen_files_ga(u64 seed, u64 idx, const RunCtx & ctx)
   }
   p.ops.push_back(s);
   gen_faults(r, p, sz, true);
+  // the loader is re-entered on the same object: valid file, another valid file, the damaged one again, a torn one
+  int na = r.chance(0.5) ? (int)r.range(1, 2) : 0;
+  for (int i = 0; i < na; i++) { Op a; a.k = "again"; a.a = {(i64)r.below(4), (i64)r.below(9000)}; p.ops.push_back(a); }
   return p;
 }
 
